@@ -25,7 +25,7 @@ VETTED = re.compile("|".join([
     r"Digest>::(new|update|chain_update|finalize|finalize_reset|reset|output_size|new_with_prefix|digest|finalize_into)", r"digest::", r"sha2::", r"generic_array::", r"crypto_common::",
     r"core::default::Default>::default$", r"core::clone::Clone>::clone$", r"core::convert::(Into|From|AsRef|AsMut|TryInto|TryFrom)<.*>>::(into|from|as_ref|as_mut|try_into|try_from)$",
     r"core::array::<impl .*>::(try_from|from|as_ref|as_mut|map|as_slice|each_ref)", r"core::convert::AsRef", r"core::borrow::Borrow(Mut)?<.*>>::borrow(_mut)?$",
-    r"core::slice::<impl \[.*\]>::(len|iter|iter_mut|copy_from_slice|clone_from_slice|as_ptr|as_mut_ptr|chunks|chunks_exact|split_at|split_at_mut|first|last|is_empty|fill|to_vec|into_vec|as_slice|swap|reverse|windows|as_chunks|as_array)$",
+    r"core::slice::<impl \[.*\]>::(len|iter|iter_mut|copy_from_slice|clone_from_slice|as_ptr|as_mut_ptr|chunks|chunks_exact|split_at|split_at_mut|first|last|first_mut|last_mut|split_first|split_last|split_first_mut|split_last_mut|is_empty|fill|to_vec|into_vec|as_slice|swap|reverse|windows|as_chunks|as_array)$",
     r"core::ops::(Index|IndexMut)<core::ops::Range(Full|From|To|Inclusive)?<usize>>.*::index(_mut)?$", r"core::ops::Deref(Mut)?>::deref(_mut)?$",
     r"core::iter::", r"as core::iter::(Iterator|IntoIterator|DoubleEndedIterator|ExactSizeIterator|Extend<.*>|FromIterator<.*>|Sum<.*>|Product<.*>)>::", r"impl core::iter::",
     r"alloc::vec::Vec(::)?<.*>::(new|with_capacity|push|len|iter|iter_mut|as_slice|as_mut_slice|extend_from_slice|reserve|capacity|clear|truncate|into_boxed_slice|as_ptr|as_mut_ptr|is_empty|pop|extend|resize|from_raw_parts|set_len)$",
@@ -45,7 +45,7 @@ VETTED = re.compile("|".join([
 SHAPE_PUBLIC = re.compile("|".join([
     r"as core::iter::(Iterator|DoubleEndedIterator)>::(next|next_back|map|zip|rev|skip|take|chain|cloned|copied|enumerate|by_ref|collect|step_by|flatten|flat_map|peekable|fuse|inspect|sum|product|fold|for_each|count|last|nth|size_hint)",
     r"impl core::iter::(Iterator|DoubleEndedIterator) for .*>::(next|next_back|size_hint|nth)", r"core::iter::(once|repeat|empty|zip|from_fn)",
-    r"IntoIterator.*>::into_iter$", r"core::slice::<impl \[.*\]>::(iter|iter_mut|chunks|chunks_exact|split_at|split_at_mut|windows|first|last|as_chunks|as_array)$",
+    r"IntoIterator.*>::into_iter$", r"core::slice::<impl \[.*\]>::(iter|iter_mut|chunks|chunks_exact|split_at|split_at_mut|windows|first|last|first_mut|last_mut|split_first|split_last|split_first_mut|split_last_mut|as_chunks|as_array)$",
     r"core::ops::Try>::branch$", r"core::option::Option(::)?<.*>::(map|ok_or|ok_or_else|as_ref|as_mut|copied|cloned|take)", r"core::result::Result(::)?<.*>::(map|map_err|ok)",
     r"core::convert::(TryInto|TryFrom)<.*>>::(try_into|try_from)$", r"core::array::<impl .*>::try_from", r"alloc::vec::", r"core::ops::(Index|IndexMut)<core::ops::Range",
     r"core::ops::Deref(Mut)?>::deref(_mut)?$", r"core::convert::(AsRef|AsMut)", r"core::clone::Clone>::clone$", r"core::borrow::Borrow", r"core::convert::Into<.*>>::into$", r"core::convert::From<.*>>::from$",
